@@ -554,6 +554,11 @@ def cancels_own_events(g, n):
 
 def bool_params(fn):
     """parameters used directly as a condition, negated, or compared with True/False/None"""
+    from .norm import fn_memo
+    return list(fn_memo(fn, 'bool_params', lambda: _bool_params(fn)))
+
+
+def _bool_params(fn):
     names = {a.arg for a in fn.args.args} - {'self'}
     used = set()
     for n in ast.walk(fn):
@@ -575,6 +580,11 @@ def bool_params(fn):
 
 
 def none_params(fn):
+    from .norm import fn_memo
+    return list(fn_memo(fn, 'none_params', lambda: _none_params(fn)))
+
+
+def _none_params(fn):
     names = {a.arg for a in fn.args.args} - {'self'}
     used = set()
     for n in ast.walk(fn):
